@@ -70,6 +70,40 @@ def _full_slice_text(fnode, expr, depth=8) -> str:
     return " ;; ".join(texts)
 
 
+def _sub_elements(elements):
+    """ufl.algorithms.analysis.extract_sub_elements on stand-in elements (parents first, then their sub-elements, recursively)"""
+    subs = tuple(x for e in elements for x in getattr(e, "sub_elements", ()))
+    return tuple(elements) if not subs else (*elements, *_sub_elements(subs))
+
+
+def _uniq(elements):
+    out = []
+    for e in elements:
+        if not any(e is o for o in out):
+            out.append(e)
+    return tuple(out)
+
+
+def element_world(it):
+    """UFL's element extraction over stand-in forms: a form stand-in lists its elements in `_elements` (none by default)"""
+    from ..absint import _PyCall
+    for pre in ("ufl.algorithms.", "ufl.algorithms.analysis."):
+        it.overrides[pre + "extract_elements"] = _PyCall(lambda f_: tuple(getattr(f_, "_elements", ())))
+        it.overrides[pre + "extract_unique_elements"] = _PyCall(lambda f_: _uniq(getattr(f_, "_elements", ())))
+        it.overrides[pre + "extract_sub_elements"] = _PyCall(_sub_elements)
+        it.overrides.setdefault(pre + "unique_tuple", _PyCall(_uniq))
+    return it
+
+
+class _PlainElementStandIn:
+    sub_elements = ()
+    has_custom_quadrature = False
+
+    def __repr__(self):
+        return "P1"
+
+
+
 @rule(
     "SIG-COMPLETE",
     ["C13", "C10", "C04", "C14"],
@@ -128,7 +162,7 @@ def _sig_complete(repo, res):
             self.name = name
 
     def run(objs, tag="tag", version="1.0", header="HDR"):
-        it = install_arrays(Interp(repo, load_classes(repo), primary=NAMING))
+        it = element_world(install_arrays(Interp(repo, load_classes(repo), primary=NAMING)))
         for nm in ("sha1", "sha256", "md5", "sha512", "blake2b"):
             it.overrides[f"hashlib.{nm}"] = _PyCall(lambda d=b"", **k: _Sha(d))
         it.overrides["ufl.Form"] = Form
@@ -317,7 +351,7 @@ def sig_injective(repo, res):
     expr = Node("Expr", name="e")
 
     def sig(points, tag="t"):
-        it = install_arrays(Interp(repo, load_classes(repo), primary=NAMING))
+        it = element_world(install_arrays(Interp(repo, load_classes(repo), primary=NAMING)))
         for nm in ("sha1", "sha256", "md5", "sha512"):
             it.overrides[f"hashlib.{nm}"] = _PyCall(lambda d=b"", **k: _Sha(d))
         for pre in ("ufl.algorithms.", "ufl.algorithms.analysis."):
@@ -376,7 +410,7 @@ def sig_injective(repo, res):
             return list(self._integrals)
 
     def fsig(weights, points):
-        it = install_arrays(Interp(repo, load_classes(repo), primary=NAMING))
+        it = element_world(install_arrays(Interp(repo, load_classes(repo), primary=NAMING)))
         for nm in ("sha1", "sha256", "md5", "sha512"):
             it.overrides[f"hashlib.{nm}"] = _PyCall(lambda d=b"", **k: _Sha(d))
         it.overrides["ufl.Form"] = Form
@@ -406,6 +440,117 @@ def sig_injective(repo, res):
                      "cache the second request is served the kernel built with the first one's quadrature rule", m.line(cs.node), props=("C13", "C14"))
         if s1 != s1b:
             res.fail(key, "the same form gives two different signatures", m.line(cs.node))
+    # quadrature elements: their repr - all the UFL signature sees of them - prints points and weights with NumPy's repr, the same lossy rendering
+    class QElement(PyNative):
+        sub_elements = ()
+        has_custom_quadrature = True
+
+        def __init__(self, points, weights):
+            self._p, self._w = points, weights
+
+        def custom_quadrature(self):
+            return self._p, self._w
+
+        def __repr__(self):
+            return "QuadratureElement(triangle, <8 digits, elided beyond 1000 entries>)"
+
+    class PlainElement(PyNative):
+        sub_elements = ()
+        has_custom_quadrature = False
+
+        def custom_quadrature(self):
+            raise Raised("ValueError: Element does not have custom quadrature")
+
+        def __repr__(self):
+            return "P1"
+
+    class MixedElement(PyNative):
+        has_custom_quadrature = False
+
+        def __init__(self, subs):
+            self.sub_elements = tuple(subs)
+
+        def custom_quadrature(self):
+            raise Raised("ValueError: Element does not have custom quadrature")
+
+        def __repr__(self):
+            return "Mixed" + repr(self.sub_elements)
+
+    class Fn(PyNative):
+        def __init__(self, element, number):
+            self._e, self._n = element, number
+
+        def ufl_element(self):
+            return self._e
+
+        def number(self):
+            return self._n
+
+        def count(self):
+            return self._n
+
+    class EForm(Form):
+        def __init__(self, elements):
+            Form.__init__(self, "UFL-SIGNATURE-OVER-ELEMENT-REPRS", [Integral({"quadrature_degree": 2})])
+            self._elements = list(elements)
+
+        def arguments(self):
+            return [Fn(self._elements[0], 0)]
+
+        def coefficients(self):
+            return [Fn(e, k) for k, e in enumerate(self._elements[1:])]
+
+    class Mesh(PyNative):  # isinstance against `ufl.Mesh` goes by the class name
+        pass
+    the_mesh = Mesh()
+
+    def esig(elements, as_expression=False):
+        it = element_world(install_arrays(Interp(repo, load_classes(repo), primary=NAMING)))
+        for nm in ("sha1", "sha256", "md5", "sha512"):
+            it.overrides[f"hashlib.{nm}"] = _PyCall(lambda d=b"", **k: _Sha(d))
+        it.overrides["ufl.Form"] = Form
+        it.overrides["ufl.form.Form"] = Form
+        it.overrides["ffcx.__version__"] = "0.0"
+        it.overrides["ffcx.codegeneration.get_signature"] = _PyCall(lambda: "HDR")
+        if not as_expression:
+            return it.call_f(cs, [[EForm(elements)], "t"])
+        fns = [Fn(e, k) for k, e in enumerate(elements)]
+        for pre in ("ufl.algorithms.", "ufl.algorithms.analysis."):
+            it.overrides[pre + "extract_coefficients"] = _PyCall(lambda e_: list(fns[1:]))
+            it.overrides[pre + "extract_constants"] = _PyCall(lambda e_: [])
+            it.overrides[pre + "extract_arguments"] = _PyCall(lambda e_: list(fns[:1]))
+        it.overrides["ufl.Mesh"] = "Mesh"
+        it.overrides["ufl.domain.extract_domains"] = _PyCall(lambda e_: [the_mesh])
+        it.overrides["ufl.corealg.traversal.unique_pre_traversal"] = _PyCall(lambda e_: [])
+        it.overrides["ufl.algorithms.signature.compute_expression_signature"] = _PyCall(lambda e_, rn: "EXPRSIG-OVER-ELEMENT-REPRS")
+        return it.call_f(cs, [[(expr, P_)], "t"])
+    W_ = arr((2,), lambda i, j: 0.25)
+    W2_ = arr((2,), lambda i, j: 0.25 + (1e-9 if i == 0 else 0))
+    P2_ = arr((2, 2), lambda i, j: 0.25 + 0.25 * i * (1 - j) + (1e-9 if (i, j) == (1, 1) else 0))
+    LW1, LP = arr((1200,), lambda i, j: 1 / 2400), arr((1200, 1), lambda i, j: i / 2048)
+    LW2 = arr((1200,), lambda i, j: (1 + (1 if i == 600 else 0)) / 2400)
+    epairs = {
+        "a quadrature element whose points differ in the 10th digit": ([PlainElement(), QElement(P_, W_)], [PlainElement(), QElement(P2_, W_)]),
+        "a quadrature element whose weights differ in the 10th digit": ([PlainElement(), QElement(P_, W_)], [PlainElement(), QElement(P_, W2_)]),
+        "a 1200-point quadrature element differing in the middle": ([QElement(LP, LW1), PlainElement()], [QElement(LP, LW2), PlainElement()]),
+        "a quadrature sub-element of a mixed element whose weights differ in the 10th digit": ([PlainElement(), MixedElement([PlainElement(), QElement(P_, W_)])],
+                                                                                                 [PlainElement(), MixedElement([PlainElement(), QElement(P_, W2_)])]),
+    }
+    for kind in ("form", "expression"):
+        for label, (e1, e2) in epairs.items():
+            key = f"{cs.key}:exact-encoding:{kind}:{label}"
+            res.ob(key)
+            try:
+                s1, s2, s1b = esig(e1, kind == "expression"), esig(e2, kind == "expression"), esig(list(e1), kind == "expression")
+            except Raised as e:
+                res.fail(key, f"compute_signature raises ({e.what}) on {kind} with {label}", m.line(cs.node))
+                continue
+            if s1 == s2:
+                res.fail(key, f"two {kind}s with {label} get the same module name: the UFL signature sees an element through its repr, where basix prints the rule with "
+                         "NumPy's repr (8 significant digits, elision beyond 1000 entries); with a shared cache the second request is served the kernel built with "
+                         "the first one's quadrature rule", m.line(cs.node), props=("C13", "C14"))
+            if s1 != s1b:
+                res.fail(key, f"the same {kind} gives two different signatures", m.line(cs.node))
     key = f"{cs.key}:tag"
     res.ob(key)
     p0 = pairs["different point sets of equal shape"][0]
@@ -843,6 +988,9 @@ def sig_renumbering(repo, res):
         def __init__(self, kind, name, mesh):
             self.kind, self.name, self.mesh = kind, name, mesh
 
+        def ufl_element(self):
+            return _PlainElementStandIn()
+
         def __repr__(self):
             return f"{self.kind}({self.name})"
 
@@ -860,7 +1008,7 @@ def sig_renumbering(repo, res):
         # expression order: f (on B), x (geometry of A), g (on A), constant k (on B)
         f_, x_, g_, k_ = Term("Coefficient", "f", B), GeometricQuantity("SpatialCoordinate", "x", A), Term("Coefficient", "g", A), Term("Constant", "k", B)
         expr = Node("Expr", name="f*x*g*k", terminals=[f_, x_, g_, k_])
-        it = install_arrays(Interp(repo, load_classes(repo), primary=NAMING))
+        it = element_world(install_arrays(Interp(repo, load_classes(repo), primary=NAMING)))
         it.extra_bases["Expr"] = ("Expr",)
         seen = {}
 
